@@ -38,7 +38,7 @@ def cleanup(d):
 # ------------------------------------------------------------------------------------------- generation
 
 
-def generate(p, outdir, *, ekf=True, cse=True, k=5.0, max_dt=0.1, namespace="gen", name="gen", container="list", reverse=False, noise=None):
+def generate(p, outdir, *, ekf=True, cse=True, k=5.0, max_dt=0.1, namespace="gen", name="gen", container="list", reverse=False, noise=None, cal_container="set"):
     """Run the real formak.cpp entry point (compile / compile_ekf) for program p.  Returns (header, source)."""
     from formak import cpp
 
@@ -52,7 +52,7 @@ def generate(p, outdir, *, ekf=True, cse=True, k=5.0, max_dt=0.1, namespace="gen
     cwd = os.getcwd()
     os.chdir(REPO)  # templates are opened relative to the repository root
     try:
-        model = p.ui_model(container)
+        model = p.ui_model(container, cal_container=cal_container)
         calmap = p.sympy_calibration_map()
         if ekf:
             pn = p.sympy_process_noise(noise[0] if noise else None)
